@@ -120,6 +120,8 @@ struct Known {
     prop: String,
     class: String,
     text: String,
+    /// minimised replay of the finding (findings/...json), if the entry names one
+    file: Option<String>,
 }
 
 fn load_known() -> Vec<Known> {
@@ -141,7 +143,15 @@ fn load_known() -> Vec<Known> {
                 }
             }
             if !prop.is_empty() && !class.is_empty() {
-                out.push(Known { prop, class, text: text.join(" ") });
+                let file = text.iter().find_map(|t| {
+                    let t = t.trim_matches(|c| c == '(' || c == ')' || c == ';' || c == ',');
+                    if t.starts_with("findings/") && t.ends_with(".json") {
+                        Some(t.to_string())
+                    } else {
+                        None
+                    }
+                });
+                out.push(Known { prop, class, text: text.join(" "), file });
             }
         }
     }
@@ -368,6 +378,24 @@ fn batch(prop: &str, gen_prop: &str, tier: Tier, seed: u64, runs: u64, threads: 
     let known = load_known();
     let mut exit = 0;
     let mut known_seen = vec![];
+    // every listed finding of this property is re-played from its file: the line is printed
+    // whether or not the seeded search happens to run into it again
+    for k in known.iter().filter(|k| k.prop == prop) {
+        let Some(file) = &k.file else { continue };
+        let reproduced = std::fs::read_to_string(file)
+            .ok()
+            .and_then(|s| serde_json::from_str::<serde_json::Value>(&s).ok())
+            .and_then(|j| serde_json::from_value::<Case>(j["case"].clone()).ok())
+            .map(|case| scen::replay(prop, &case))
+            .and_then(|o| o.viol)
+            .map_or(false, |v| v.class == k.class || v.class.ends_with(&k.class));
+        if reproduced {
+            println!("KNOWN-FINDING: property={prop} class={} {}", k.class, k.text);
+            known_seen.push(k.class.clone());
+        } else {
+            println!("note: listed finding property={prop} class={} does not reproduce from {file} on this tree (repaired?)", k.class);
+        }
+    }
     let mut violations = 0;
     let _ = std::fs::create_dir_all("replays");
     let _ = std::fs::create_dir_all("evidence");
@@ -402,8 +430,10 @@ fn batch(prop: &str, gen_prop: &str, tier: Tier, seed: u64, runs: u64, threads: 
         std::fs::write(&path, serde_json::to_string_pretty(&j).unwrap()).ok();
         let abs = std::fs::canonicalize(&path).map(|p| p.display().to_string()).unwrap_or(path.clone());
         if let Some(k) = is_known {
-            println!("KNOWN-FINDING: property={prop} class={class} {} (replay {path})", k.text);
-            known_seen.push(class.clone());
+            if !known_seen.contains(class) {
+                println!("KNOWN-FINDING: property={prop} class={class} {} (replay {path})", k.text);
+                known_seen.push(class.clone());
+            }
             continue;
         }
         println!("violation class={class} run={} ops {} -> {} :: {}", f.run, f.case.len(), min.len(), v2.msg);
